@@ -223,6 +223,10 @@ def r3_atyp_tables(ctx):
 
 
 # ---------- R07.4 identity plumbing ----------
+def tb_push(body, o):
+    return calls_norm(body, "Vec::push")
+
+
 def r4_plumbing(ctx):
     P = ctx.P
     # (a) SOCKS5 front-end: create_proxy_stream((dest.addr, dest.port)) with dest = read_connection_request(..).0
@@ -266,7 +270,9 @@ def r4_plumbing(ctx):
         okd = any(s == "destination.0" for s in srcs)
         ctx.ob("R07.4", "client-encoder:domain-bytes", okd, "", "domain bytes are destination.0" if okd else "no extend_from_slice(destination.0) found: %s" % srcs)
         wd = calls_norm(body, "Session::write_data_frame")
-        okw = bool(wd) and any("addr_bytes" in fmt(o.of_operand(c.args[2])) for c in wd)
+        # the vector the address was assembled in (receiver of the extend_from_slice/push calls) is what is sent
+        asm = {o.of_operand(c.args[0])[2] for c in ext + tb_push(body, o) if isinstance(o.of_operand(c.args[0]), tuple) and len(o.of_operand(c.args[0])) > 2}
+        okw = bool(wd) and any(any(isinstance(s, tuple) and s[0] == "var" and len(s) > 2 and s[2] in asm for s in subterms(o.of_operand(c.args[2]))) for c in wd)
         ctx.ob("R07.4", "client-encoder:sent", okw, wd[0].site if wd else "", "the encoded address is what write_data_frame sends" if okw else "write_data_frame does not send the encoded address")
     # (d) server: handler passes the decoded destination on; the dial uses it
     body = ctx.P.bodies.get("<server::handler::TcpProxyHandler as server::handler::StreamHandler>::handle_stream::{closure#0}")
@@ -291,7 +297,10 @@ def r4_plumbing(ctx):
             det = fmt(t)[:200]
             if isinstance(t, tuple) and t[0] == "agg" and t[1].endswith("SocksAddr") and len(t[3]) == 2:
                 port = t[3][1]
-                okr = is_call_term(port, "::from_be_bytes") and "port_buf" in fmt(port)
+                # port = u16::from_be_bytes(<the [u8; 2] buffer filled by the last read_exact>)
+                rds = sorted(calls_norm(body, "::read_exact"), key=lambda c: c.bb)
+                last_buf = o.of_operand(rds[-1].args[1]) if rds else None
+                okr = is_call_term(port, "::from_be_bytes") and last_buf is not None and strip_bb(port[3][0]) == strip_bb(last_buf) and isinstance(last_buf, tuple) and len(last_buf) > 2 and body.lty(last_buf[2]).get("s") == "[u8; 2]"
         ctx.ob("R07.4", "server:decoder-result", okr, "", "SocksAddr{addr, port=from_be_bytes(port_buf)}" if okr else "decoder result is %s" % det)
     body = co(ctx, "R07.4", "server::handler::proxy_tcp_connection_with_synack_internal")
     if body is not None:
